@@ -26,6 +26,101 @@ from props.C01 import PRE as PRE01
 
 PRE = "From DF Require Import Base.Prelude Model.RefSQL Model.DataFrameOps.\nOpen Scope Z_scope."
 
+KF1 = "C48-KF1-dataframe-aggregate-exposes-implicit-group-by-columns"
+KF1_WHAT = ("C48-KF1 DataFrame::aggregate(group, aggs) builds the Aggregate with add_implicit_group_by_exprs(true): every column that "
+            "functionally depends on the group columns (all columns, when the input is itself an Aggregate grouped by them) is appended to "
+            "the GROUP BY list AND to the output schema, so the result has extra columns that `SELECT group, aggs .. GROUP BY group` does "
+            "not have (the documented equivalent). Witness (runs first on every run, harness id 1000000, stream witness:KF1): "
+            "t1(c0,c1) = {(1,10),(2,NULL),(NULL,30),(2,20)}; ctx.table(t1).alias(a1).aggregate([a1.c0],[count(a1.c1) AS n30])"
+            ".aggregate([a1.c0],[sum(n30) AS n31]) returns the columns (c0, n30, n31); SELECT c0, sum(n30) AS n31 FROM (SELECT c0, "
+            "count(c1) AS n30 FROM t1 GROUP BY c0) GROUP BY c0 returns (c0, n31). The rows projected on (c0, n31) are equal.")
+
+
+KF2 = "C48-via-C03-KF5-column-free-join-or-filter-conjunct-pushed-below-global-aggregate"
+KF2_WHAT = ("C48-KF2 (= C03-KF5 reached through a join) a conjunct of a join condition / filter that folds to a constant (e.g. "
+            "CAST(NULL AS BIGINT) IN (a, b) -> NULL) is pushed by push_down_filter into an input that is an Aggregate WITHOUT GROUP BY and "
+            "then BELOW that Aggregate (`cols.iter().all(..)` is vacuously true for a column-free predicate): the aggregate is computed over "
+            "no rows (count = 0) and the conjunct no longer guards the join. DataFrame and SQL agree with each other; the reference defines "
+            "no row. Witness (harness id 1000001, stream witness:KF2): t1.aggregate([], [count(c1) AS n40]).join_on(t0, Inner, [n40 <> 3, "
+            "CAST(NULL AS BIGINT) IN (n40, a2.c0)]) returns one row per row of t0 with n40 = 0; SQL: SELECT .. FROM (SELECT count(c1) AS "
+            "n40 FROM t1) a INNER JOIN t0 b ON (a.n40 <> 3) AND (CAST(NULL AS BIGINT) IN (a.n40, b.c0)).")
+
+
+def conjuncts(p):
+    if isinstance(p, list) and p and p[0] == "and":
+        return conjuncts(p[1]) + conjuncts(p[2])
+    return [p]
+
+
+def _has(x, pred):
+    if isinstance(x, list):
+        return (bool(x) and pred(x)) or any(_has(y, pred) for y in x)
+    return False
+
+
+def _empty_global_aggs(q):
+    """copies of q in which ONE Aggregate without GROUP BY (reachable through filter/project/distinct/sort/limit wrappers) reads no rows"""
+    k = q[0]
+    if k == "group" and q[1] == []:
+        yield ["group", [], q[2], q[3], ["filter", ["lit", False], q[4]]]
+        return
+    if k in ("filter", "project", "distinctq", "sort", "limit"):
+        for v in _empty_global_aggs(q[-1]):
+            yield q[:-1] + [v]
+
+
+def kf5_variants(q):
+    """C03-KF5 rewrites: a constant-foldable conjunct X of a join condition (or filter) is dropped and a global aggregate among the
+    inputs is evaluated over no rows.  The Coq reference decides whether a rewrite reproduces the engine's rows."""
+    out = []
+
+    def walk(x, rebuild):
+        if not isinstance(x, list) or not x or not isinstance(x[0], str):
+            return
+        if x[0] == "join" and x[1] != "cross":
+            kind, wl, wr, on, l, r = x[1:]
+            cs = conjuncts(on)
+            for i, X in enumerate(cs):
+                if _has(X, lambda n: n[0] == "lit" and n[1] is None) or not _has(X, lambda n: n[0] == "col"):
+                    rest = [c for j, c in enumerate(cs) if j != i]
+                    on2 = ["lit", True]
+                    for c in reversed(rest):
+                        on2 = c if on2 == ["lit", True] else ["and", c, on2]
+                    for l2 in _empty_global_aggs(l):
+                        out.append(rebuild(["join", kind, wl, wr, on2, l2, r]))
+                    for r2 in _empty_global_aggs(r):
+                        out.append(rebuild(["join", kind, wl, wr, on2, l, r2]))
+        for i, y in enumerate(x):
+            if isinstance(y, list) and y and isinstance(y[0], str) and y[0] in ("table", "values", "filter", "project", "join", "semi", "group",
+                                                                                "distinctq", "setop", "sort", "limit"):
+                walk(y, lambda v, i=i, x=x: rebuild(x[:i] + [v] + x[i + 1:]))
+
+    walk(q, lambda v: v)
+    return out[:6]
+
+
+def name_str(n):
+    return "c%d" % n if n < 100 else "n%d" % (n - 100)
+
+
+def kf1_explains(c):
+    """the DataFrame result is the SQL result plus extra columns, and the last operation is a keyed aggregate"""
+    df, sq = c["outs"]["df"], c["outs"]["sql"]
+    if "rows" not in df or "rows" not in sq or c["tail"] is not None or c["d"][0] != "aggregate" or not c["d"][1]:
+        return False
+    want = [name_str(n) for n in c["names"]]
+    got = [n for n, _ in df["schema"]]
+    if len(got) <= len(want):
+        return False
+    pos, j = [], 0
+    for i, g in enumerate(got):
+        if j < len(want) and g == want[j]:
+            pos.append(i)
+            j += 1
+    if j != len(want):
+        return False
+    return bag([[r[i] for i in pos] for r in df["rows"]]) == bag(sq["rows"])
+
 
 def r_cref(c):
     return "(%s, %d)" % ("None" if c[0] is None else "Some %d" % c[0], c[1])
@@ -119,7 +214,7 @@ def bag(rows):
 
 def run(pid, tier, seed, replay):
     ck = Check(pid, tier, seed, level="proof")
-    n = 400 if tier == "quick" else 6000
+    n = 300 if tier == "quick" else 6000
     ck.proof_step(extra_targets=["Model/DataFrameOps.vo", "Proofs/DataFrameOpsProofs.vo"])
     ok, out, dt = vlib.cargo_build("h_core", bin="c48")
     ck.log("cargo build: ok=%s (%.0fs)" % (ok, dt))
@@ -142,6 +237,7 @@ def run(pid, tier, seed, replay):
                 "sql_result": c["outs"]["sql"], "differences": c["diffs"]}
 
     stats = {"equal_rows_names_types": 0, "both_fail": 0, "hung": 0, "topk_adjudicated": 0}
+    known_counts = {}
     terms, meta = [], []          # Coq: (case index, which) per term
     for ci, c in enumerate(cases):
         df, sq = c["outs"]["df"], c["outs"]["sql"]
@@ -149,7 +245,10 @@ def run(pid, tier, seed, replay):
             stats["hung"] += 1
             continue
         if not c["ok"]:
-            ck.fail_input("DataFrame pipeline and its SQL text differ: " + "; ".join(c["diffs"])[:400], brief(c))
+            key = KF1 if kf1_explains(c) else None
+            if key:
+                known_counts[key[:7]] = known_counts.get(key[:7], 0) + 1
+            ck.fail_input("DataFrame pipeline and its SQL text differ: " + "; ".join(c["diffs"])[:400], brief(c), key=key)
             continue
         if "err" in df and "err" in sq:
             stats["both_fail"] += 1
@@ -163,12 +262,18 @@ def run(pid, tier, seed, replay):
             stats["topk_adjudicated"] += 1
 
     shard = 40
-    bad, log, dt1 = vlib.coq_eval_cases(PRE, "c48_case", "c48_check", terms, shard=shard, tag="c48")
-    agree_bad, log2, dt2 = vlib.coq_eval_cases(PRE, "c48_case", "c48_agree", terms, shard=shard, tag="c48a")
-    if any(not isinstance(b, int) for b in bad + agree_bad):
-        ck.problem("tie", "evaluation of the reference in coqc failed:\n" + (log + log2)[-3000:])
-    bad = [b for b in bad if isinstance(b, int)]
-    agree_bad = {b for b in agree_bad if isinstance(b, int)}
+    # one pass with the strict test (verdict 0); the few cases that fail it are re-examined (verdict 2 = reference run-time error)
+    agree_l, log2, dt2 = vlib.coq_eval_cases(PRE, "c48_case", "c48_agree", terms, shard=shard, tag="c48a")
+    if any(not isinstance(b, int) for b in agree_l):
+        ck.problem("tie", "evaluation of the reference in coqc failed:\n" + log2[-3000:])
+    agree_order = sorted(b for b in agree_l if isinstance(b, int))
+    agree_bad = set(agree_order)
+    bad, dt1 = [], 0.0
+    if agree_order:
+        sub0, log, dt1 = vlib.coq_eval_cases(PRE, "c48_case", "c48_check", [terms[i] for i in agree_order], shard=shard, tag="c48")
+        if any(not isinstance(b, int) for b in sub0):
+            ck.problem("tie", "evaluation of the reference in coqc failed:\n" + log[-3000:])
+        bad = [agree_order[b] for b in sub0 if isinstance(b, int)]
     wf_bad = set()
     if bad:
         sub, log3, _ = vlib.coq_eval_cases(PRE, "c48_case", "c48_wellformed", [terms[i] for i in bad], shard=shard, tag="c48w")
@@ -186,6 +291,8 @@ def run(pid, tier, seed, replay):
             c1 = {"tables": c["tables"], "q": c["q"], "out": c["outs"][meta[i][1]]}
             for key, c2 in known_variants(c1):
                 cand.append((j, key, r01_case(c2)))
+            for q2 in kf5_variants(c["q"]):
+                cand.append((j, KF2, r01_case(dict(c1, q=q2))))
     explained = {}
     if cand:
         cbad, log4, _ = vlib.coq_eval_cases(PRE01, "c01_case", "c01_agree", [t for _, _, t in cand], shard=shard, tag="c48k")
@@ -199,13 +306,19 @@ def run(pid, tier, seed, replay):
     n_dis = 0
     for j, i in enumerate(dis):
         c = cases[meta[i][0]]
-        if j in explained:
+        if j in explained and explained[j] == KF2:
+            known_counts["C48-KF2"] = known_counts.get("C48-KF2", 0) + 1
+            ck.fail_input("DataFrame pipeline and its SQL text agree with each other but not with the reference: a global aggregate among the "
+                          "join inputs was computed over no rows", brief(c), key=KF2)
+        elif j in explained:
             k7 = " + ".join(p.strip()[:7] for p in explained[j].split(" + "))
             c01_known[k7] = c01_known.get(k7, 0) + 1
         else:
             n_dis += 1
             ck.fail_input("DataFrame pipeline and its SQL text agree with each other but not with the reference semantics of the translation "
                           "(%s rows)" % meta[i][1], brief(c))
+    if "C48-KF1" not in known_counts:
+        ck.notes.append("witness pipeline for C48-KF1 did not reproduce the finding (fixed upstream?)")
     compared = [cases[meta[i][0]] for i in range(len(terms)) if i not in agree_bad and meta[i][1] == "df"]
     ops = {}
     nt = set()
@@ -232,6 +345,7 @@ def run(pid, tier, seed, replay):
         "pipelines_finished_by_distinct_on": tails,
         "direct_oracle": stats,
         "deviations_attributed_to_C01_findings": c01_known,
+        "known_findings_hit_counts": known_counts,
         "disagreements_unexplained": n_dis,
         "translated_query_constructs": cons,
         "traces_validated_against_impl": len(compared),
